@@ -1165,7 +1165,7 @@ class _WireReader:
                     deleting,
                     empty,
                 ) = self.message._parse_special_rr_header(
-                    section_number, count, i, name, rdclass, rdtype
+                    section_number, count, i, absolute_name, rdclass, rdtype
                 )
             else:
                 rdclass, rdtype, deleting, empty = self.message._parse_rr_header(
